@@ -127,7 +127,7 @@ def corpus_specs(pid, quick=False):
             base = (fw.REPO / d['base_file']).read_text()
         if 'base_rstrip_then_append' in d:
             base = base.rstrip('\n') + d['base_rstrip_then_append']
-        out.append({'name': d['name'], 'st': d['settings'], 'W': d['W'], 'mode': d.get('mode', 'pool'),
+        out.append({'name': d['name'], 'st': d['settings'], 'st2': d.get('settings2'), 'W': d['W'], 'mode': d.get('mode', 'pool'),
                     'program': d.get('program', 'HIP_RA_X'), 'base': base})
     return out
 
@@ -146,7 +146,7 @@ class Run:
         return [t for t in self.tasks if t['status'] == 'ok']
 
 
-def run_job(ctx, name, settings, W=16, mode='pool', program='HIP_RA_X', base=None, timeout=900):
+def run_job(ctx, name, settings, W=16, mode='pool', program='HIP_RA_X', base=None, timeout=900, settings2=None):
     d = ctx.scratch / f'mc_{name}'
     d.mkdir()
     (d / 'base.txt').write_text(base if base is not None else hiprax_base())
@@ -154,6 +154,11 @@ def run_job(ctx, name, settings, W=16, mode='pool', program='HIP_RA_X', base=Non
     (d / 'settings.txt').write_text(settings_run)
     job = {'program': program, 'base': str(d / 'base.txt'), 'settings': str(d / 'settings.txt'),
            'result': str(d / 'result.txt'), 'W': W, 'mode': mode}
+    first = None
+    if settings2 is not None:       # mode 'api2': `settings` is the first call, `settings2` the second - the run that is analysed
+        (d / 'settings2.txt').write_text(settings2)
+        job['settings2'] = str(d / 'settings2.txt')
+        first, settings, settings_run = settings, settings2, settings2
     (d / 'job.json').write_text(json.dumps(job))
     p = subprocess.run(['timeout', str(timeout), fw.PY, '-B', str(DRIVER), str(d)], capture_output=True, text=True,
                        env=dict(os.environ, PYTHONPATH=f'{fw.SRC}:{fw.VERIF / "tools"}'))
@@ -164,7 +169,7 @@ def run_job(ctx, name, settings, W=16, mode='pool', program='HIP_RA_X', base=Non
     res = Path(parse_settings_raw(settings_run)[3] or d / 'result.txt')      # an MC_OUTPUT_FILE line overrides the argument
     js = res.with_suffix('.json')
     return Run({'name': name, 'dir': d, 'settings': settings, 'settings_run': settings_run, 'W': W, 'mode': mode, 'program': program,
-                'base': base if base is not None else hiprax_base(), 'main_error': o['main_error'], 'tasks': o['tasks'],
+                'base': base if base is not None else hiprax_base(), 'main_error': o['main_error'], 'tasks': o['tasks'], 'api': o.get('api') or [], 'settings_first': first,
                 'result_text': res.read_text() if res.exists() else None,
                 'json_text': js.read_text() if js.exists() else None})
 
@@ -271,8 +276,8 @@ def run_jobs(ctx, specs, parallel=3):
     """specs: [dict(name, st, W, program?, base?, mode?)] -> Runs, a few driver processes at a time"""
     from concurrent.futures import ThreadPoolExecutor
     with ThreadPoolExecutor(max_workers=parallel) as ex:
-        return list(ex.map(lambda s: run_job(ctx, s['name'], s['st'], W=s['W'], mode=s.get('mode', 'pool'),
-                                             program=s.get('program', 'HIP_RA_X'), base=s.get('base')), specs))
+        return list(ex.map(lambda s: run_job(ctx, s['name'], s['st'], W=s['W'], mode=s.get('mode', 'pool'), program=s.get('program', 'HIP_RA_X'),
+                                             base=s.get('base'), settings2=s.get('st2')), specs))
 
 
 def report_tokens(report, outputs):
